@@ -1,11 +1,13 @@
 #!/usr/bin/env python3
 import json, sys
 pid = sys.argv[1]
+rnd = sys.argv[2] if len(sys.argv) > 2 else "1"
 for l in open('/verif/properties.jsonl'):
     p = json.loads(l)
     if p['id'] == pid:
         break
-wt = f"/tmp/seed-{pid}"
+wt = f"/tmp/seed-{pid}" if rnd == "1" else f"/tmp/seed{rnd}-{pid}"
+VA, VB = ("A", "B") if rnd == "1" else ("C", "D")
 print(f"""You are given a git worktree of the Go/Rust repository refraction-networking/conjure (a refraction-networking "Conjure" station: registration ingest/tracking, phantom address selection, wrapping/connecting transports that proxy censored clients to covert destinations) at `{wt}`. Work ONLY inside that directory (never touch /repo or /verif, do not read /verif). The sandbox has no network. Go environment for every shell call: `cd {wt} && export GOFLAGS= GOPROXY=off GOSUMDB=off GOTOOLCHAIN=local` (the repo is a go.work workspace: modules `.`, `cmd/application`, `cmd/registration-server`, `util/station-debug`; run `go test -vet=off -count=1 ./pkg/...` from the root and `go test -vet=off -count=1 .` inside cmd/application). One existing test, TestConjureLibConfigResolveBlocklisted, fails for lack of DNS even on the untouched tree - ignore it. Some existing tests bind fixed ports (ZMQ 39000 etc.) and may collide with other users of this machine: if such a test hangs or fails, re-run it once before concluding anything.
 
 Here is a semantic property that this code base is supposed to satisfy:
@@ -15,7 +17,7 @@ Here is a semantic property that this code base is supposed to satisfy:
   QUANTIFIED OVER: {p['quantifier']['text']}
   Code it is anchored in: {', '.join(p['anchors']['files'])}
 
-Your job is to play the role of a developer who introduces a REALISTIC BUG: produce TWO different, independent source changes (variant A and variant B, each a small diff to non-test source files of the repository) such that, for each variant:
+Your job is to play the role of a developer who introduces a REALISTIC BUG: produce TWO different, independent source changes (variant {VA} and variant {VB}, each a small diff to non-test source files of the repository) such that, for each variant:
   1. the repository still compiles (`go build ./...` in the affected modules) and `go vet` is not needed;
   2. the EXISTING test suite still passes (run at least the tests of every package you touched and of the packages that import it most directly; the whole suite takes ~70 s: `go test -vet=off -count=1 ./...` at the root and in cmd/application);
   3. the property above is violated by the changed code;
@@ -23,7 +25,7 @@ Your job is to play the role of a developer who introduces a REALISTIC BUG: prod
 For each variant write a DEMONSTRATION: a Go test (or small program) that FAILS on the changed tree and PASSES on the unchanged tree, and that shows the property violation concretely (put the demo test file next to the code it exercises so it can reach unexported things, named `zz_seed_demo_<variant>_test.go`; it must not be part of the patch).
 
 Deliverables, all under `{wt}/SEEDED/` (create it):
-  - `A/patch.diff`, `B/patch.diff`: output of `git diff` for the source change only (no demo files, nothing under SEEDED/). Each must apply with `git apply` to a clean checkout of this worktree's HEAD.
-  - `A/demo/…`, `B/demo/…`: the demonstration file(s) with, in `A/demo/README.txt`, the exact path where each file must be placed and the exact command to run it.
-  - `A/meta.json`, `B/meta.json`: {{"property": "{p['id']}", "variant": "A", "summary": "...what the change does...", "why_it_breaks_the_property": "...", "needs_to_manifest": "...the specific input / interleaving / fault / sequence...", "files_touched": [...], "existing_tests_run": "...commands and results...", "demo_command": "...", "demo_result_with_change": "FAIL ...", "demo_result_without_change": "PASS"}}
-Before finishing: `git stash`/`git checkout` so that the worktree's tracked files are back at HEAD (leave only SEEDED/ and nothing else untracked), and verify once more from that clean state that each patch applies, builds, passes the existing tests of the touched packages, and that the demo fails with / passes without it. Report briefly what the two variants are.""")
+  - `{VA}/patch.diff`, `{VB}/patch.diff`: output of `git diff` for the source change only (no demo files, nothing under SEEDED/). Each must apply with `git apply` to a clean checkout of this worktree's HEAD.
+  - `{VA}/demo/…`, `{VB}/demo/…`: the demonstration file(s) with, in `{VA}/demo/README.txt`, the exact path where each file must be placed and the exact command to run it.
+  - `{VA}/meta.json`, `{VB}/meta.json`: {{"property": "{p['id']}", "variant": "{VA}", "summary": "...what the change does...", "why_it_breaks_the_property": "...", "needs_to_manifest": "...the specific input / interleaving / fault / sequence...", "files_touched": [...], "existing_tests_run": "...commands and results...", "demo_command": "...", "demo_result_with_change": "FAIL ...", "demo_result_without_change": "PASS"}}
+Before finishing: `git stash`/`git checkout` so that the worktree's tracked files are back at HEAD (leave only SEEDED/ and nothing else untracked), and verify once more from that clean state that each patch applies, builds, passes the existing tests of the touched packages, and that the demo fails with / passes without it. Also create `SEEDED/go.mod` containing `module seeded` so that the stored demo files do not disturb `go test ./...` at the repository root. Aim for breaks that are NOT the first thing one would think of for this property: favour subtle state-dependent, ordering-dependent, boundary-value or cross-component changes over simply deleting a check. Report briefly what the two variants are.""")
